@@ -1,0 +1,42 @@
+//go:build verif
+
+package genesis
+
+// Contracts checked by /verif (gvc). This file contains comments only and is compiled only with -tags verif.
+// Property C20: a configuration whose balances do not add up to the declared token supplies and contract holdings is
+// rejected. The five consistency validators are abstract predicates of the configuration here (what each validator
+// accepts); CheckGenesis is proved to accept only configurations accepted by all five, and the file loader to hand out
+// only configurations CheckGenesis accepted.
+//@ model GenesisConfig okPlasma bool
+//@ model GenesisConfig okSwap bool
+//@ model GenesisConfig okPillars bool
+//@ model GenesisConfig okSupply bool
+
+//@ spec okFields(g *GenesisConfig) bool = g.GenesisBlocks != nil && g.TokenConfig != nil && g.PillarConfig != nil && g.SporkAddress != nil && g.PlasmaConfig != nil && g.SwapConfig != nil
+
+//@ func CheckFieldsExist(g)
+//@   requires g != nil
+//@   ensures[fields] result == nil <==> okFields(g)
+//@   modifies nothing
+
+//@ func CheckPlasmaInfo(g)
+//@   trusted
+//@   ensures result == nil <==> g.okPlasma
+//@   modifies nothing
+//@ func CheckSwapAccount(g)
+//@   trusted
+//@   ensures result == nil <==> g.okSwap
+//@   modifies nothing
+//@ func CheckPillarBalance(g)
+//@   trusted
+//@   ensures result == nil <==> g.okPillars
+//@   modifies nothing
+//@ func CheckTokenTotalSupply(g)
+//@   trusted
+//@   ensures result == nil <==> g.okSupply
+//@   modifies nothing
+
+//@ func CheckGenesis(g)
+//@   requires g != nil
+//@   ensures[all-validators] result == nil <==> okFields(g) && g.okPlasma && g.okSwap && g.okPillars && g.okSupply
+//@   modifies nothing
